@@ -20,7 +20,7 @@ import tempfile
 import time
 
 HERE = os.path.dirname(os.path.dirname(os.path.abspath(__file__)))
-EVID = os.path.join(HERE, "evidence")
+EVID = os.environ.get("HVMON_EVIDENCE_DIR") or os.path.join(HERE, "evidence")   # (drills write elsewhere)
 REPLAY = os.path.join(EVID, "replay")
 
 
